@@ -76,7 +76,8 @@ def style_catalogue():
   add("TextAlign", sp.TextAlignType.start, sp.TextAlignType.center, sp.TextAlignType.end)
   add("TextCombine", sp.TextCombineType.none, sp.TextCombineType.all)
   add("TextDecoration", sp.TextDecorationType(underline=True), sp.TextDecorationType(False, False, False),
-      sp.TextDecorationType(None, True, None), sp.TextDecorationType(True, False, True), sp.TextDecorationType(None, None, False))
+      sp.TextDecorationType(None, True, None), sp.TextDecorationType(True, False, True), sp.TextDecorationType(None, None, False),
+      sp.TextDecorationType())      # no component specified: everything is inherited
   E = sp.TextEmphasisType
   add("TextEmphasis", sp.SpecialValues.none, E(E.Style.auto), E(E.Style.filled_circle, red, E.Position.after),
       E(E.Style.filled_dot, None, E.Position.before), E(E.Style.filled_sesame), E(E.Style.open_circle, C((0, 0, 255, 128))),
@@ -107,6 +108,10 @@ def time_value(rng, profile, fps, lo, hi):
   if profile == "ms":
     return base + Fraction(rng.randint(0, 240), 1000)
   if profile == "offgrid":
+    if rng.random() < 0.25:
+      # a hair below a whole minute / hour: rounding to the millisecond (or frame) must carry into the next minute
+      # (small magnitudes and one denominator only: the tick base of the case must stay within TLC's 32-bit integers)
+      return rng.choice([60, 120, 180, 300]) - Fraction(1, 3000)
     return base + Fraction(rng.randint(1, 6), rng.choice([7, 21, 3]) * 4)
   return base
 
